@@ -154,14 +154,18 @@ func fieldPath(fieldDescs protoreflect.FieldDescriptors, names ...string) []prot
 
 		// advance
 		if i != len(fds)-1 {
-			msgDesc := fd.Message()
-			if msgDesc == nil {
+			if !isSingularMessage(fd) {
 				return nil
 			}
-			fieldDescs = msgDesc.Fields()
+			fieldDescs = fd.Message().Fields()
 		}
 	}
 	return fds
+}
+
+// isSingularMessage reports whether fd is a non-repeated message field.
+func isSingularMessage(fd protoreflect.FieldDescriptor) bool {
+	return fd.Message() != nil && !fd.IsList() && !fd.IsMap()
 }
 
 func (p *path) alive() bool {
@@ -380,7 +384,7 @@ func (p *path) addRule(
 		m.hasBody = false
 	default:
 		m.body = fieldPath(fieldDescs, strings.Split(rule.Body, ".")...)
-		if m.body == nil {
+		if m.body == nil || !isSingularMessage(m.body[len(m.body)-1]) {
 			return fmt.Errorf("body field error %v", rule.Body)
 		}
 		m.hasBody = true
@@ -390,7 +394,7 @@ func (p *path) addRule(
 	case "":
 	default:
 		m.resp = fieldPath(fieldDescs, strings.Split(rule.Body, ".")...)
-		if m.resp == nil {
+		if m.resp == nil || !isSingularMessage(m.resp[len(m.resp)-1]) {
 			return fmt.Errorf("response body field error %v", rule.ResponseBody)
 		}
 	}
